@@ -48,6 +48,7 @@ __attribute__((noinline)) unsigned w_configure(const unsigned char* txb, unsigne
     w.bytes(inst.env->script.data(), inst.env->script.size()); w.bytes(inst.env->successor_script.data(), inst.env->successor_script.size());
     w.u32(inst.env->tce ? 1 : 0);
     w.u32(inst.env->execdata.m_annex_present ? 1 : 0); w.u64((uint64_t)inst.env->execdata.m_validation_weight_left); w.u32(inst.env->execdata.m_codeseparator_pos);
+    w.u32(inst.env->flags);          // the flag word the session actually runs under
     if (inst.tce) { delete inst.tce; inst.tce = nullptr; inst.env->tce = nullptr; }
     return (unsigned)(w.p - out);
 }
